@@ -14,6 +14,8 @@
 EXTENDS Integers, Sequences, FiniteSets, TLC
 
 Blank == {" ", "\t", "\n"}
+\* the alphabet used for exhaustive exploration (defined here, not in a cfg file: TLC does not interpret escapes in cfg strings)
+SmallAlphabet == {"(", ")", "|", ";", " ", "\n", "1", ".", "-", "e", "a"}
 Single == {"(", ")", "|"}
 Delim == Blank \cup Single \cup {";"}
 Digit == {"0", "1", "2", "3", "4", "5", "6", "7", "8", "9"}
